@@ -32,6 +32,8 @@ pub struct Gen {
   pub ins_ids: Vec<InscriptionId>,
   pub rune_ids: Vec<RuneId>,
   pub rune_names: Vec<u128>,
+  /// rune balances per unspent outpoint as the real index reports them (fed back by the harness)
+  pub runic: HashMap<OutPoint, Vec<(RuneId, u128)>>,
   pub network: bitcoin::Network,
   pub max_txs: u64,
   /// probability knobs (per mille)
@@ -74,6 +76,7 @@ impl Gen {
       ins_ids: Vec::new(),
       rune_ids: Vec::new(),
       rune_names: Vec::new(),
+      runic: HashMap::new(),
       network,
       max_txs: 5,
       p_envelope: 450,
@@ -307,7 +310,7 @@ impl Gen {
   }
 
   /// a runestone (or garbage) OP_RETURN script; returns (script, etched name if any)
-  fn runestone(&mut self, height: u32, tx_index: u32, n_out: usize, minimum: u128, force_etch: bool, dist: &mut Dist) -> (ScriptBuf, Option<Rune>) {
+  fn runestone(&mut self, height: u32, tx_index: u32, n_out: usize, minimum: u128, force_etch: bool, held: &[(RuneId, u128)], dist: &mut Dist) -> (ScriptBuf, Option<Rune>) {
     if self.malformed && self.rng.chance(1, 5) {
       dist.hit("rs_garbage");
       let mut b = vec![0x6a, 0x5d];
@@ -321,17 +324,36 @@ impl Gen {
       2 | 3 => 1,
       _ => 2 + self.rng.below(3),
     };
+    let ne = if !held.is_empty() && ne == 0 && self.rng.chance(2, 3) { 1 + self.rng.below(3) } else { ne };
     for _ in 0..ne {
-      let id = self.some_rune_id(height, tx_index);
-      let amount = match self.rng.below(7) {
-        0 => 0,
-        1 => 1,
-        2 => u128::MAX,
-        3 => 1000,
-        _ => self.rng.below(5000) as u128,
+      // mostly edicts over runes the inputs really hold, with amounts around the balance
+      let (id, amount) = if !held.is_empty() && self.rng.chance(2, 3) {
+        let (id, bal) = *self.rng.pick(held);
+        dist.hit("rs_edict_over_held_rune");
+        let amount = match self.rng.below(8) {
+          0 => 0,
+          1 => 1,
+          2 => bal,
+          3 => bal + 1,
+          4 => bal / 2,
+          5 => bal / 3,
+          6 => u128::MAX,
+          _ => self.rng.below(bal.min(u64::MAX as u128) as u64 + 1) as u128,
+        };
+        (id, amount)
+      } else {
+        let id = self.some_rune_id(height, tx_index);
+        let amount = match self.rng.below(7) {
+          0 => 0,
+          1 => 1,
+          2 => u128::MAX,
+          3 => 1000,
+          _ => self.rng.below(5000) as u128,
+        };
+        (id, amount)
       };
       let output = match self.rng.below(6) {
-        0 => n_out as u32,
+        0 | 1 => n_out as u32,
         _ => self.rng.below(n_out.max(1) as u64) as u32,
       };
       edicts.push(Edict { id, amount, output });
@@ -459,6 +481,15 @@ impl Gen {
         ins.push(self.utxos.remove(idx));
       }
     }
+    let want_runic = self.rng.below(1000) < self.p_runestone;
+    if want_runic {
+      let n = self.utxos.len();
+      let runic: Vec<usize> = (0..n).filter(|&i| self.runic.contains_key(&self.utxos[i].op)).collect();
+      if !runic.is_empty() {
+        let idx = *self.rng.pick(&runic);
+        ins.push(self.utxos.remove(idx));
+      }
+    }
     for _ in 0..nin {
       if let Some(u) = self.pick_input(height) {
         ins.push(u);
@@ -482,11 +513,22 @@ impl Gen {
       avail -= v;
       outs.push(TxOut { value: Amount::from_sat(v), script_pubkey: self.script_pool() });
     }
-    let hot_rs = plan_etch || self.rng.below(1000) < self.p_runestone;
+    let mut held: Vec<(RuneId, u128)> = Vec::new();
+    for u in &ins {
+      if let Some(b) = self.runic.get(&u.op) {
+        for (id, amt) in b {
+          match held.iter_mut().find(|(i, _)| i == id) {
+            Some(e) => e.1 = e.1.saturating_add(*amt),
+            None => held.push((*id, *amt)),
+          }
+        }
+      }
+    }
+    let hot_rs = plan_etch || want_runic || (!held.is_empty() && self.rng.chance(3, 4)) || self.rng.below(1000) < self.p_runestone;
     let mut etched = None;
     if hot_rs {
       let n_out_total = outs.len() + 1;
-      let (script, e) = self.runestone(height, tx_index, n_out_total, minimum, plan_etch, dist);
+      let (script, e) = self.runestone(height, tx_index, n_out_total, minimum, plan_etch, &held, dist);
       etched = e;
       let at = self.rng.below(outs.len() as u64 + 1) as usize;
       outs.insert(at, TxOut { value: Amount::ZERO, script_pubkey: script });
